@@ -173,7 +173,7 @@ func (e *evaluator) filter(value any, node parser.Node, variables *variableScope
 			return nil, err
 		}
 
-		if isTrue(f) {
+		if v != nil && isTrue(f) {
 			r = append(r, v)
 		}
 	}
